@@ -18,22 +18,27 @@ open Mtv
 /-- Clause "never panics": for every 256-byte key and EVERY byte string — shorter than the 24-byte
 header, not block aligned, decrypting to any declared length incl. negative and 2^31−1 —
 `DeserializeEncrypted` (repaired) returns a message or an error. No hypothesis on the primitives. -/
-theorem openClient_no_panic (P : Prims) (key data : Bytes) (hk : key.length = 256) :
+theorem openClient_no_panic (P : Prims) (key data : Bytes) :
     (openClient P key data).isPanic = false :=
-  openClientG_fixed_no_panic P key data (by omega)
+  openClientG_fixed_no_panic P key data
 
 example : (openClient toyPrims (zeros 256) [1, 2, 3]).isPanic = false :=
-  openClient_no_panic toyPrims (zeros 256) [1, 2, 3] (by simp)
+  openClient_no_panic toyPrims (zeros 256) [1, 2, 3]
+
+/-- in particular for a session that has no key yet: the packet carrying the (publicly known) key id of the
+empty key is refused with an error (D20) -/
+example : openClient toyPrims [] (authKeyId toyPrims [] ++ zeros 16 ++ zeros 32) = .err "shortKey" := by
+  decide +kernel
 
 /-- … and so `transport.ReadMsg`'s dispatch never panics either, whatever the framing layer delivers -/
-theorem route_no_panic (P : Prims) (key data : Bytes) (hk : key.length = 256) :
+theorem route_no_panic (P : Prims) (key data : Bytes) :
     ∀ site, route P key data ≠ .panic site := by
   intro site h
   unfold route at h
   split at h
   · cases h
   · split at h
-    · have hp := openClient_no_panic P key data hk
+    · have hp := openClient_no_panic P key data
       split at h
       · rename_i s hs; rw [hs] at hp; cases hp
       · cases h
@@ -44,7 +49,7 @@ theorem route_no_panic (P : Prims) (key data : Bytes) (hk : key.length = 256) :
       · split at h <;> cases h
 
 example : ∀ site, route toyPrims (zeros 256) [0, 0, 0, 0, 0, 0, 0, 0, 9] ≠ .panic site :=
-  route_no_panic toyPrims (zeros 256) _ (by simp)
+  route_no_panic toyPrims (zeros 256) _
 
 /-- Defect D3, on the model of the code as found: under any primitives satisfying the hypotheses
 there is a 256-byte key and a packet — right key id, msg_key arbitrary, ciphertext decrypting to a
@@ -174,7 +179,7 @@ theorem openClient_refuses_short_or_unaligned {P : Prims} (hP : P.Ok) (key data 
   cases hres : openClient P key data with
   | err e => exact ⟨e, rfl⟩
   | panic s =>
-    have := openClient_no_panic P key data hk
+    have := openClient_no_panic P key data
     rw [hres] at this; cases this
   | ok m =>
     exfalso
